@@ -556,7 +556,10 @@ func (p Params) CheckRules(feederID uint64, prices []*PriceSource) (bool, error)
 							break
 						}
 					}
-
+					if notFound {
+						// a required source is missing, don't let later sources overwrite this
+						break
+					}
 				}
 			}
 		} else {
@@ -567,6 +570,10 @@ func (p Params) CheckRules(feederID uint64, prices []*PriceSource) (bool, error)
 						notFound = false
 						break
 					}
+				}
+				if notFound {
+					// a required source is missing, don't let later sources overwrite this
+					break
 				}
 			}
 		}
